@@ -20,6 +20,7 @@ func (s *verifSink) Write(p []byte) (int, error) {
 	cp := make([]byte, len(p))
 	copy(cp, p)
 	s.ch <- cp
+	symYield() // natively: give a concurrent sender time to get in between two writes
 	return len(p), nil
 }
 func (s *verifSink) Read([]byte) (int, error) { return 0, io.EOF }
